@@ -364,6 +364,8 @@ func nativeMySQLScan(sql string) (class []int, typ []int, start []int, end []int
 			c = 3
 		case sqlparser.INTEGRAL, sqlparser.DECIMAL, sqlparser.FLOAT:
 			c = 4
+		case sqlparser.COMMENT:
+			c = 5
 		}
 		class = append(class, c)
 		typ = append(typ, t)
